@@ -38,6 +38,8 @@ def reset(report=MAIN_REPORT):
 
         'success': None,
         'ast': None,
+        # The code that 'ast' was parsed from
+        'ast_code': None,
 
         'independent': None,
         'sections': None,
@@ -138,6 +140,7 @@ def verify(code=None, filename=DEFAULT_STUDENT_FILENAME, report=MAIN_REPORT,
     try:
         parsed = ast.parse(code, filename)
         report[TOOL_NAME]['ast'] = parsed
+        report[TOOL_NAME]['ast_code'] = code
     except IndentationError as e:
         indentation_error(e.lineno, e.filename, code, e.offset, e,
                           sys.exc_info(), report=report, muted=muted, enhance=enhance)
